@@ -99,12 +99,12 @@ Proof.
   intros I Hk Hcl Hfit. unfold tbl_add.
   assert (Hcast : cast U32 claimed = claimed) by (unfold cast, U32; apply N.mod_small; lia).
   rewrite Hcast.
-  assert (Hnl : add_m md U32 claimed (t_len s) = Some (claimed + t_len s)).
-  { unfold add_m, U32. rewrite (inv_len s I).
+  assert (Hnl : add_c U32 claimed (t_len s) = Some (claimed + t_len s)).
+  { unfold add_m, add_c, U32. rewrite (inv_len s I).
     destruct (N.ltb_spec (claimed + N.of_nat (length (tbl_image s))) (2 ^ 32)); [reflexivity|lia]. }
   rewrite Hnl. cbn [option_bind].
   assert (Hho : add_m md U32 (t_hoff s) claimed = Some (t_hoff s + claimed)).
-  { unfold add_m, U32. rewrite (inv_hoff s I).
+  { unfold add_m, add_c, U32. rewrite (inv_hoff s I).
     destruct (N.ltb_spec (N.of_nat (length (tbl_image s)) + claimed) (2 ^ 32)); [reflexivity|lia]. }
   rewrite <- (inv_hoff s I).
   destruct (t_kind s); try discriminate Hk; cbn [option_bind]; rewrite ?Hho; cbn [option_bind];
